@@ -16,7 +16,7 @@ CONSTANTS
   StartRollback = FALSE
   EntityGC = FALSE
   PollerExits = FALSE
-  SharedKept = FALSE
+  SharedKept = TRUE
   JoinedStopped = FALSE
   LateRegisterChecked = FALSE
   BarrierExits = TRUE
